@@ -22,8 +22,13 @@ class MachineryError(Exception):
 
 def load_known():
     out = []
-    if os.path.exists(KNOWN):
-        with open(KNOWN) as f:
+    import glob
+    # known_findings.d/*.jsonl: staging area used while a check is being built; entries are
+    # merged into known_findings.jsonl when the check is registered
+    for path in [KNOWN] + sorted(glob.glob(os.path.join(VERIF, "known_findings.d", "*.jsonl"))):
+        if not os.path.exists(path):
+            continue
+        with open(path) as f:
             for line in f:
                 line = line.strip()
                 if line and not line.startswith("#"):
